@@ -89,7 +89,8 @@ class SoulSeekClient:
             self.transfers,
             self.peers,
             self.searches,
-            self.server_manager
+            self.server_manager,
+            self.distributed_network
         ]
 
         self._MESSAGE_MAP = build_message_map(self)
